@@ -13,8 +13,8 @@ from harness.trace import Run, result_str
 PROP = "C07"
 THEOREMS = ["Lbfgsb.C07.callback_state_eq_run_k", "Lbfgsb.C07.maxiter_only_in_guard",
             "Lbfgsb.C07.snapshot_is_value", "Lbfgsb.C07.callback_false_transparent",
-            "Lbfgsb.C06.restart_continues", "Lbfgsb.C06.restart_same_result"]
-MODULES = ["LbfgsbVerif.Props.C07", "LbfgsbVerif.Props.C06Sim"]
+            "Lbfgsb.C06.restart_continues", "Lbfgsb.C06.restart_same_result", "Lbfgsb.C06.restart_at_every_split"]
+MODULES = ["LbfgsbVerif.Props.C07", "LbfgsbVerif.Props.C06Sim", "LbfgsbVerif.Props.C06Inv"]
 
 FIELDS = ("x", "fun", "jac", "nfev", "njev", "nit", "sk", "yk")
 
@@ -111,6 +111,13 @@ def evaluate(case: Dict[str, Any]) -> Dict[str, Any]:
         if r4.exc is not None:
             out["prop"].append({"what": f"restart from the kept callback state raises {type(r4.exc).__name__}", "key": ""})
             break
+        # the continuation makes the same evaluations: when it made as many objective calls as the uninterrupted run did
+        # during that iteration, it computed as many gradients (a counter restored wrongly shows here, in every gradient mode)
+        if (int(r4.result.nfev) - int(st.nfev) == int(nxt.nfev) - int(st.nfev)
+                and int(r4.result.njev) - int(st.njev) != int(nxt.njev) - int(st.njev)):
+            out["prop"].append({"what": "restart from the kept callback state: gradient counter of the continuation differs from the uninterrupted run",
+                                "key": "", "detail": {"k": int(st.nit), "njev_restart": int(r4.result.njev), "njev_run": int(nxt.njev)}})
+            break
         want = np.array(nxt.x, dtype=float)
         got = np.array(r4.result.x, dtype=float)
         scale = max(1.0, float(np.max(np.abs(want))))
@@ -134,7 +141,7 @@ def evaluate(case: Dict[str, Any]) -> Dict[str, Any]:
 
 
 def features(r):
-    return {"jac": r.choice(["callable"] * 4 + ["2-point"]), "callback": "false",
+    return {"jac": r.choice(["callable"] * 3 + ["2-point", "3-point"]), "callback": "false",
             "ftarget": "none", "gtol_callable": False, "scaler": "none", "update": "none"}
 
 
